@@ -1,5 +1,10 @@
 """C11 - a batch behaves like the same calls made one after another.
 
+Targets: two registered INSTANCES (A batch / B one by one), or two registrations of identical module-level CLASSES in
+instance mode "session" (state per connection) or "percall" (fresh instance per request; reference = fresh session
+instance per batch).  With class targets a second client with its own connections does the same with other calls,
+and the first client may release, reconnect (fresh session instances) and batch again.
+
 Three identical stateful objects of one exposed class live in a real Daemon (both server types): A receives the
 generated call sequence as ONE batch (BatchProxy, normal or one-way), B receives the same sequence call by call
 through a normal proxy, stopping at the first failure - B is the executable reference.  A local, never-remoted
@@ -8,6 +13,7 @@ background client.  A second batch on the same BatchProxy follows in part of the
 of A and B are compared directly and through fresh normal calls.
 """
 import copy
+import json
 import threading
 
 from ..world import World
@@ -77,6 +83,40 @@ class Acc:
         self.log.append(["_secret", x])
         self.total += 100000
         return "secret-ran"
+
+
+class _Tracked(Acc):
+    """registered as a CLASS: the daemon creates the instances (per connection / per request); every instance
+    is remembered so that the judge can look at all of them at quiescence"""
+
+    def __init__(self):
+        super().__init__()
+        type(self)._made.append(self)
+
+
+@api.behavior(instance_mode="session")
+class AccSA(_Tracked):
+    _made = []
+
+
+@api.behavior(instance_mode="session")
+class AccSB(_Tracked):
+    _made = []
+
+
+@api.behavior(instance_mode="percall")
+class AccPA(_Tracked):
+    _made = []
+
+
+@api.behavior(instance_mode="session")
+class AccPB(_Tracked):
+    """reference of the per-call class: a batch on a per-call class runs on ONE fresh instance, so the identical object
+    for the one-by-one run is a fresh session instance (the reference connection is renewed before every batch)"""
+    _made = []
+
+
+CLASS_TARGETS = {"session": (AccSA, AccSB), "percall": (AccPA, AccPB)}
 
 
 NAME_FAILS = {"hidden": "unexposed_name", "_secret": "private_name", "nosuch": "missing_name"}
@@ -179,7 +219,8 @@ class BatchWorld(World):
     NAME = "batch"
     LEVEL = "exploration"
     REAL = ["Pyro5.client.BatchProxy/_BatchedRemoteMethod/Proxy._pyroInvokeBatch/_pyroInvoke/_RemoteMethod",
-            "Pyro5.server.Daemon.handleRequest (batch branch, _get_attribute, exposure metadata)", "Pyro5.core._ExceptionWrapper",
+            "Pyro5.server.Daemon.handleRequest (batch branch, _get_attribute, exposure metadata)",
+            "Daemon._getInstance (registered instances, session-mode and percall-mode classes)", "Pyro5.core._ExceptionWrapper",
             "Pyro5.serializers (all four)", "Pyro5.protocol (compression on/off)", "SocketServer_Threadpool / SocketServer_Multiplex",
             "socketutil.receive_data/send_data (MSG_WAITALL on/off, fragmented receives)"]
     STUB = ["sockets/selector (in-memory)", "threads (baton scheduler, line pre-emption in handleRequest on the thread server)",
@@ -187,23 +228,31 @@ class BatchWorld(World):
     PROBES = ["empty_batch", "all_ok", "failure_midway", "failure_first", "unexposed_name", "private_name", "missing_name",
               "oneway_batch", "oneway_with_failure", "state_compared", "serpent", "json", "marshal", "msgpack",
               "multiplex", "thread", "second_batch", "concurrent", "kwargs", "failure_at_position", "failure_at_submission",
-              "background_interleaved", "compressed", "fragmented"]
-    RULE = ("plan = (server type, serializer, compression, MSG_WAITALL, fragmentation, batch mode normal/one-way, 0-8 calls "
-            "over add/push/put(kwargs)/get/div/check/hidden/_secret/nosuch with arguments from the lossless core, optional second "
-            "batch of 0-4 calls on the same BatchProxy, batch and sequential run in one thread or concurrently, 0-6 background "
-            "calls on a third object, pre-emption probabilities); distinct = distinct plan x interleaving digest; "
+              "background_interleaved", "compressed", "fragmented", "instance_target", "session_class", "percall_class",
+              "peer_client", "reconnected", "session_state_compared", "class_instances_compared"]
+    RULE = ("plan = (target: registered instances / session-mode classes / percall-mode classes; server type, serializer, "
+            "compression, MSG_WAITALL, fragmentation, batch mode normal/one-way, 0-8 calls over add/push/put(kwargs)/get/div/check/"
+            "hidden/_secret/nosuch with arguments from the lossless core, optional second batch of 0-4 calls on the same BatchProxy; "
+            "instances: batch and sequential run in one thread or concurrently; classes: a peer client with its own connections and "
+            "its own batches, optional release + reconnect + third batch; 0-6 background calls on a third object, start delays, "
+            "pre-emption probabilities); distinct = distinct plan x interleaving digest; "
             "non-trivial = a batch of at least one call was submitted and judged against the sequential reference")
     ASSUMPTIONS = ["arguments stay inside the lossless core every serializer transports unchanged (lists not tuples, str dict keys, "
                    "finite floats; under msgpack integer ARGUMENTS stay inside 64 bits: msgpack's loadsCall has no ext_hook - a C01 matter)",
                    "for an unexposed / private / missing name only the class AttributeError is compared (the sequential proxy refuses "
                    "client-side from metadata, the batch is refused by the server; the texts differ by design)",
                    "a failure that surfaces when the batch is submitted hides the earlier results; only their effects are compared",
-                   "after a submission that raised, the second batch uses a fresh BatchProxy (re-use of a BatchProxy whose submission "
+                   "after a submission that raised, the next batch uses a fresh BatchProxy (re-use of a BatchProxy whose submission "
                    "failed is not covered by the statement)",
-                   "a one-way batch is judged at quiescence (all threads idle, 0.5 virtual seconds later)"]
-    QUICK_RUNS = 6000
+                   "a one-way batch is judged at quiescence (all threads idle, 0.5 virtual seconds later)",
+                   "session-mode class: the identical object of a connection's batches is the session instance of the reference "
+                   "connection (same client, same generation); states are read with get() on those same connections",
+                   "percall-mode class: a batch runs on one fresh instance, so its identical object is a fresh instance that gets the "
+                   "calls one by one (a session-mode reference class whose connection is renewed before every batch)",
+                   "instances the daemon created for a class are compared as a multiset of states, untouched instances ignored"]
+    QUICK_RUNS = 5000
     CHUNK = 100
-    SHRINK_LISTS = ["calls", "second"]
+    SHRINK_LISTS = ["calls", "second", "again", "peer.calls", "peer.second"]
 
     # ------------------------------------------------------------------
     def gen(self, rng, tier):
@@ -212,18 +261,31 @@ class BatchWorld(World):
         serializer = rng.choice(SERIALIZERS)
         huge = serializer != "msgpack"
         lines = servertype == "thread" and rng.random() < 0.6
+        target = rng.choices(["instance", "session", "percall"], [5, 3, 2])[0]
+        modes = ["normal", "normal", "oneway"]
         n = rng.randint(0, 8)
         calls = [_call(rng, huge) for _ in range(n)]
         second = None
         if rng.random() < 0.35:
             second = [_call(rng, huge) for _ in range(rng.randint(0, 6 if big else 4))]
-        return {"servertype": servertype, "serializer": serializer, "compression": rng.random() < 0.35,
-                "waitall": rng.random() < 0.5, "mode": rng.choice(["normal", "normal", "oneway"]),
-                "calls": calls, "second": second, "mode2": rng.choice(["normal", "normal", "oneway"]),
+        plan = {"target": target, "servertype": servertype, "serializer": serializer, "compression": rng.random() < 0.35,
+                "waitall": rng.random() < 0.5, "mode": rng.choice(modes),
+                "calls": calls, "second": second, "mode2": rng.choice(modes),
                 "concurrent": rng.random() < 0.5, "a_first": rng.random() < 0.5, "bg": rng.choice([0, 2, 4, 6]),
                 "net": {"p_frag": rng.choice([0.0, 0.0, 0.3, 0.8]), "shuffle_select": rng.random() < 0.5},
                 "lines": lines, "p_line": rng.choice([0.01, 0.03, 0.1]) if lines else 0.0,
                 "p_block": rng.choice([0.0, 0.2, 0.6, 1.0])}
+        if target != "instance":
+            plan["concurrent"] = False
+            plan["start"] = rng.choice([0, 0, 0.01, 2.0])
+            plan["again"] = [_call(rng, huge) for _ in range(rng.randint(0, 5))] if rng.random() < 0.5 else None
+            plan["mode3"] = rng.choice(modes)
+            plan["peer"] = None
+            if rng.random() < 0.75:
+                plan["peer"] = {"calls": [_call(rng, huge) for _ in range(rng.randint(0, 6))], "mode": rng.choice(modes),
+                                "second": [_call(rng, huge) for _ in range(rng.randint(0, 4))] if rng.random() < 0.35 else None,
+                                "mode2": rng.choice(modes), "start": rng.choice([0, 0, 0.01, 2.0]), "a_first": rng.random() < 0.5}
+        return plan
 
     def line_codes(self, plan):
         return _codes() if plan.get("lines") else ()
@@ -231,6 +293,18 @@ class BatchWorld(World):
     def simplify(self, plan):
         if plan.get("second") is not None and not plan["second"]:
             yield dict(plan, second=None)
+        if plan.get("again") is not None and not plan["again"]:
+            yield dict(plan, again=None)
+        if plan.get("peer") is not None:
+            pe = plan["peer"]
+            if not pe["calls"] and not pe.get("second"):
+                yield dict(plan, peer=None)
+            if pe.get("second") is not None and not pe["second"]:
+                yield dict(plan, peer=dict(pe, second=None))
+            if pe.get("start"):
+                yield dict(plan, peer=dict(pe, start=0))
+        if plan.get("start"):
+            yield dict(plan, start=0)
         if plan["compression"]:
             yield dict(plan, compression=False)
         if plan["net"].get("p_frag"):
@@ -241,7 +315,7 @@ class BatchWorld(World):
             yield dict(plan, concurrent=False)
         if not plan["waitall"]:
             yield dict(plan, waitall=True)
-        for key in ("calls", "second"):
+        for key in ("calls", "second", "again"):
             for i, c in enumerate(plan.get(key) or []):
                 for j, v in enumerate(c["a"]):
                     if isinstance(v, (list, dict, str)) and v:
@@ -255,31 +329,60 @@ class BatchWorld(World):
 
     # ------------------------------------------------------------------
     def scenario(self, ctx):
+        registered = []
+        try:
+            self._scenario(ctx, registered)
+        finally:
+            for daemon, cls in registered:
+                try:
+                    daemon.unregister(cls)      # module-level classes must not keep this run's daemon alive
+                except Exception:  # noqa
+                    pass
+                cls._made = []
+
+    def _scenario(self, ctx, registered):
         plan, sched = ctx.plan, ctx.sched
+        target = plan.get("target", "instance")
         config.SERIALIZER = plan["serializer"]
         # the handshake reply carries the exposed-member SETS of the object: their iteration order depends on the string
         # hash seed, and so would the compressed length (-> recv sizes in the run digest).  All clients therefore connect
-        # uncompressed, meet at a barrier, and only then is compression switched on for the calls themselves.
+        # uncompressed, meet at a barrier, and only then is compression switched on for the calls themselves; a later
+        # reconnect switches it off again for as long as it takes.
         config.COMPRESSION = False
         config.MAX_RETRIES = 0
         SU.USE_MSG_WAITALL = bool(plan["waitall"])
-        srv = Server(ctx, plan["servertype"], pool=(1, 8))
-        objA, objB, objC, model = Acc(), Acc(), Acc(), Acc()
-        uriA = srv.register(objA, "objA")
-        uriB = srv.register(objB, "objB")
+        srv = Server(ctx, plan["servertype"], pool=(1, 10))
+        objA = objB = None
+        if target == "instance":
+            objA, objB = Acc(), Acc()
+            uriA = srv.register(objA, "objA")
+            uriB = srv.register(objB, "objB")
+        else:
+            clsA, clsB = CLASS_TARGETS[target]
+            for c in (clsA, clsB):
+                c._made = []
+            uriA = srv.register(clsA, "accA")
+            registered.append((srv.daemon, clsA))
+            uriB = srv.register(clsB, "accB")
+            registered.append((srv.daemon, clsB))
+        objC = Acc()
         uriC = srv.register(objC, "objC")
-        batches = [(copy.deepcopy(plan["calls"]), plan["mode"])]
-        if plan.get("second") is not None:
-            batches.append((copy.deepcopy(plan["second"]), plan["mode2"]))
-        outA, outB, bg = [], [], {"done": 0, "errors": [], "stamps": []}
+        units = []          # one per (client, connection generation[, batch]): what was batched on A and done one by one on B
+        errors = []         # scaffolding failures of client threads
+        bg = {"done": 0, "errors": [], "stamps": []}
         marks = {}
-        gate = {"arrived": 0, "expected": 0, "errors": []}
+        gate = {"arrived": 0, "expected": 0, "errors": [], "open": False, "nocomp": 0}
+        flags = {"reconnected": False}
 
-        def client(parts):
-            """parts = [(uri, body)]: connect everything, wait for the other clients, then run the bodies in order"""
+        def describe(x):
+            return {"cls": type(x).__name__, "args": list(getattr(x, "args", ())), "comm": isinstance(x, E.CommunicationError),
+                    "text": str(x)[:200]}
+
+        def client(uris, body):
+            """connect everything, wait for the other clients, then run body(*proxies)"""
             proxies = []
             try:
-                for u, _ in parts:
+                for u in uris:
                     p = CL.Proxy(u)
                     p._pyroBind()
                     proxies.append(p)
@@ -287,74 +390,82 @@ class BatchWorld(World):
                 gate["errors"].append(describe(x))
             gate["arrived"] += 1
             if gate["arrived"] == gate["expected"]:
+                gate["open"] = True
                 config.COMPRESSION = bool(plan["compression"])
             sched.block(lambda: gate["arrived"] >= gate["expected"], 600.0, "connect-barrier")
-            if len(proxies) == len(parts):
-                for p, (_, body) in zip(proxies, parts):
-                    body(p)
+            if len(proxies) == len(uris):
+                try:
+                    body(*proxies)
+                except Exception as x:  # noqa
+                    errors.append(describe(x))
             for p in proxies:
                 try:
                     p._pyroRelease()
                 except Exception:  # noqa
                     pass
 
-        def describe(x):
-            return {"cls": type(x).__name__, "args": list(getattr(x, "args", ())), "comm": isinstance(x, E.CommunicationError),
-                    "text": str(x)[:200]}
-
-        # ---- (a) the batch on A
-        def run_batches(p):
-            marks["a0"] = sched.stamp()
+        def reconnect(p):
+            gate["nocomp"] += 1
+            config.COMPRESSION = False
             try:
-                b = api.BatchProxy(p)
-                for calls, mode in batches:
-                    rec = {"results": [], "submit_exc": None, "iter_exc": None, "ret_none": None, "n": len(calls)}
-                    outA.append(rec)
-                    for c in calls:
-                        getattr(b, c["m"])(*c["a"], **c["k"])
+                p._pyroRelease()
+                p._pyroBind()
+            finally:
+                gate["nocomp"] -= 1
+                if gate["nocomp"] == 0 and gate["open"]:
+                    config.COMPRESSION = bool(plan["compression"])
+
+        def new_unit(tag, kind, batches):
+            u = {"tag": tag, "kind": kind, "batches": batches, "outA": [], "outB": [], "getA": None, "getB": None}
+            units.append(u)
+            return u
+
+        # ---- (a) the batches on A (one BatchProxy, re-used from batch to batch)
+        def run_batches(p, batches, outA, hold):
+            for calls, mode in batches:
+                b = hold.get("bp")
+                if b is None:
+                    b = hold["bp"] = api.BatchProxy(p)
+                rec = {"results": [], "submit_exc": None, "iter_exc": None, "ret_none": None, "n": len(calls)}
+                outA.append(rec)
+                for c in calls:
+                    getattr(b, c["m"])(*copy.deepcopy(c["a"]), **copy.deepcopy(c["k"]))
+                try:
+                    r = b(oneway=True) if mode == "oneway" else b()
+                except Exception as x:  # noqa - an outcome
+                    rec["submit_exc"] = describe(x)
+                    hold["bp"] = None
+                    continue
+                if mode == "oneway":
+                    rec["ret_none"] = r is None
+                    rec["ret"] = type(r).__name__
+                    continue
+                try:
+                    it = iter(r)
+                except Exception as x:  # noqa
+                    rec["iter_exc"] = describe(x)
+                    rec["not_iterable"] = short(r)
+                    continue
+                for _ in range(len(calls) + 3):
                     try:
-                        r = b(oneway=True) if mode == "oneway" else b()
-                    except Exception as x:  # noqa - an outcome
-                        rec["submit_exc"] = describe(x)
-                        b = api.BatchProxy(p)
-                        continue
-                    if mode == "oneway":
-                        rec["ret_none"] = r is None
-                        rec["ret"] = short(r)
-                        continue
-                    try:
-                        it = iter(r)
-                    except Exception as x:  # noqa
+                        rec["results"].append(next(it))
+                    except StopIteration:
+                        break
+                    except Exception as x:  # noqa - the failure at its position
                         rec["iter_exc"] = describe(x)
-                        rec["not_iterable"] = short(r)
-                        continue
-                    for _ in range(len(calls) + 3):
-                        try:
-                            rec["results"].append(next(it))
-                        except StopIteration:
-                            rec["stopped"] = True
-                            break
-                        except Exception as x:  # noqa - the failure at its position
-                            rec["iter_exc"] = describe(x)
-                            break
-            except Exception as x:  # noqa
-                outA.append({"thread_error": describe(x)})
-            marks["a1"] = sched.stamp()
+                        break
 
         # ---- (b) the same calls one by one on B
-        def run_sequential(p):
-            try:
-                for calls, mode in batches:
-                    rec = {"results": [], "fail": None}
-                    outB.append(rec)
-                    for i, c in enumerate(calls):
-                        try:
-                            rec["results"].append(getattr(p, c["m"])(*c["a"], **c["k"]))
-                        except Exception as x:  # noqa - the reference's first failure
-                            rec["fail"] = dict(describe(x), pos=i, m=c["m"])
-                            break
-            except Exception as x:  # noqa
-                outB.append({"thread_error": describe(x)})
+        def run_sequential(p, batches, outB):
+            for calls, mode in batches:
+                rec = {"results": [], "fail": None}
+                outB.append(rec)
+                for i, c in enumerate(calls):
+                    try:
+                        rec["results"].append(getattr(p, c["m"])(*copy.deepcopy(c["a"]), **copy.deepcopy(c["k"])))
+                    except Exception as x:  # noqa - the reference's first failure
+                        rec["fail"] = dict(describe(x), pos=i, m=c["m"])
+                        break
 
         def run_background(p):
             try:
@@ -373,15 +484,89 @@ class BatchWorld(World):
             except Exception as x:  # noqa
                 bg["errors"].append(describe(x))
 
-        pa, pb = (uriA, run_batches), (uriB, run_sequential)
+        def safe_get(p):
+            try:
+                return ("ok", p.get())
+            except Exception as x:  # noqa
+                return ("exc", describe(x))
+
+        def class_body(name, spec):
+            """spec = {"gens": [[(calls, mode), ...], ...], "start", "a_first"}: one client of a class target"""
+            def body(pa, pb):
+                if spec["start"]:
+                    sched.sleep(spec["start"])
+                hold = {}
+                for gi, gen_ in enumerate(spec["gens"]):
+                    if gi:
+                        reconnect(pa)
+                        reconnect(pb)
+                        flags["reconnected"] = True
+                    groups = [gen_] if target == "session" else [[b] for b in gen_]
+                    for bi, group in enumerate(groups):
+                        u = new_unit("%s generation %d%s" % (name, gi + 1, "" if target == "session" else " request %d" % (bi + 1)),
+                                     target, group)
+                        if target == "percall" and bi:
+                            reconnect(pb)       # the reference of the next batch is a fresh instance again
+                        if name == "client 1" and "a0" not in marks:
+                            marks["a0"] = sched.stamp()
+                        if spec["a_first"]:
+                            run_batches(pa, group, u["outA"], hold)
+                            run_sequential(pb, group, u["outB"])
+                        else:
+                            run_sequential(pb, group, u["outB"])
+                            run_batches(pa, group, u["outA"], hold)
+                        if name == "client 1":
+                            marks["a1"] = sched.stamp()
+                        if target == "session":
+                            if any(m == "oneway" for _, m in group):
+                                sched.sleep(0.5)        # quiescence: nothing else is runnable when the clock moves
+                            u["getA"] = safe_get(pa)
+                            u["getB"] = safe_get(pb)
+            return body
+
+        batches = [(copy.deepcopy(plan["calls"]), plan["mode"])]
+        if plan.get("second") is not None:
+            batches.append((copy.deepcopy(plan["second"]), plan["mode2"]))
         ths = []
-        if plan["concurrent"]:
-            ths.append(threading.Thread(target=client, args=([pa],), name="client-batch"))
-            ths.append(threading.Thread(target=client, args=([pb],), name="client-seq"))
+        if target == "instance":
+            u0 = new_unit("client 1", "instance", batches)
+
+            def body_a(p):
+                marks["a0"] = sched.stamp()
+                run_batches(p, batches, u0["outA"], {})
+                marks["a1"] = sched.stamp()
+
+            def body_b(p):
+                run_sequential(p, batches, u0["outB"])
+
+            def body_ab(pa, pb):
+                if plan["a_first"]:
+                    body_a(pa)
+                    body_b(pb)
+                else:
+                    body_b(pb)
+                    body_a(pa)
+
+            if plan["concurrent"]:
+                ths.append(threading.Thread(target=client, args=([uriA], body_a), name="client-batch"))
+                ths.append(threading.Thread(target=client, args=([uriB], body_b), name="client-seq"))
+            else:
+                ths.append(threading.Thread(target=client, args=([uriA, uriB], body_ab), name="client"))
         else:
-            ths.append(threading.Thread(target=client, args=([pa, pb] if plan["a_first"] else [pb, pa],), name="client"))
+            gens = [batches]
+            if plan.get("again") is not None:
+                gens.append([(copy.deepcopy(plan["again"]), plan.get("mode3", "normal"))])
+            spec1 = {"gens": gens, "start": plan.get("start", 0), "a_first": plan["a_first"]}
+            ths.append(threading.Thread(target=client, args=([uriA, uriB], class_body("client 1", spec1)), name="client"))
+            pe = plan.get("peer")
+            if pe is not None:
+                pb_ = [(copy.deepcopy(pe["calls"]), pe["mode"])]
+                if pe.get("second") is not None:
+                    pb_.append((copy.deepcopy(pe["second"]), pe["mode2"]))
+                spec2 = {"gens": [pb_], "start": pe.get("start", 0), "a_first": pe.get("a_first", True)}
+                ths.append(threading.Thread(target=client, args=([uriA, uriB], class_body("client 2", spec2)), name="client-peer"))
         if plan["bg"]:
-            ths.append(threading.Thread(target=client, args=([(uriC, run_background)],), name="client-bg"))
+            ths.append(threading.Thread(target=client, args=([uriC], run_background), name="client-bg"))
         gate["expected"] = len(ths)
         for t in ths:
             t.start()
@@ -402,60 +587,89 @@ class BatchWorld(World):
         if not srv.loop_alive():
             ctx.disturbed = "daemon loop died: %r" % (srv.loop_death(),)
             return
-        if gate["errors"]:
-            if all(e["comm"] for e in gate["errors"]):
-                ctx.disturbed = "a client could not connect: %s" % gate["errors"][0]["text"]
-                return
-            raise S.HarnessError("client could not connect: %r" % (gate["errors"],))
-        stateA, stateB = objA._snapshot(), objB._snapshot()
+        for lst, what in ((gate["errors"], "could not connect"), (errors, "scaffolding failed")):
+            if lst:
+                if all(e["comm"] for e in lst):
+                    ctx.disturbed = "a client %s: %s" % (what, lst[0]["text"])
+                    return
+                raise S.HarnessError("client %s: %r" % (what, lst))
         config.COMPRESSION = False      # the reader's handshakes again carry hash-ordered sets
 
-        # ---- fresh normal calls read both states back
         remote = {}
+        direct = None
+        if target == "instance":
+            direct = (objA._snapshot(), objB._snapshot())
 
-        def reader():
-            for k, u in (("A", uriA), ("B", uriB)):
-                try:
-                    with CL.Proxy(u) as p:
-                        remote[k] = ("ok", p.get())
-                except Exception as x:  # noqa
-                    remote[k] = ("exc", describe(x))
+            # ---- fresh normal calls read both states back
+            def reader():
+                for k, u in (("A", uriA), ("B", uriB)):
+                    try:
+                        with CL.Proxy(u) as p:
+                            remote[k] = ("ok", p.get())
+                    except Exception as x:  # noqa
+                        remote[k] = ("exc", describe(x))
 
-        rt = threading.Thread(target=reader, name="reader")
-        rt.start()
-        rt.join(600.0)
-        if sched.sim_thread_of(rt).state != "done":
-            ctx.violate("batch-hung", "reader", "reading the states back did not finish within 600 virtual seconds")
-            return
+            rt = threading.Thread(target=reader, name="reader")
+            rt.start()
+            rt.join(600.0)
+            if sched.sim_thread_of(rt).state != "done":
+                ctx.violate("batch-hung", "reader", "reading the states back did not finish within 600 virtual seconds")
+                return
         ctx.probe(plan["servertype"])
         ctx.probe(plan["serializer"])
+        ctx.probe({"instance": "instance_target", "session": "session_class", "percall": "percall_class"}[target])
         if plan["compression"]:
             ctx.probe("compressed")
         if ctx.net.stats.get("frag"):
             ctx.probe("fragmented")
-        if plan["concurrent"]:
+        if plan["concurrent"] and target == "instance":
             ctx.probe("concurrent")
-        if bg["stamps"] and "a0" in marks and any(marks["a0"] < s < marks["a1"] for s in bg["stamps"]):
+        if flags["reconnected"]:
+            ctx.probe("reconnected")
+        if target != "instance" and plan.get("peer") is not None:
+            ctx.probe("peer_client")
+        if bg["stamps"] and "a1" in marks and any(marks["a0"] < s < marks["a1"] for s in bg["stamps"]):
             ctx.probe("background_interleaved")
         ctx.info["bg"] = [bg["done"], bg["errors"][:1]]
-        self._judge(ctx, plan, batches, outA, outB, model, stateA, stateB, remote)
+
+        # ---- judge
+        any_oneway = False
+        for u in units:
+            r = self._judge_unit(ctx, u)
+            if r is None:
+                return
+            any_oneway = any_oneway or any(m == "oneway" for _, m in u["batches"])
+        if target == "instance":
+            self._judge_instances(ctx, units[0], direct, remote)
+        else:
+            clsA, clsB = CLASS_TARGETS[target]
+
+            def bag(cls):
+                return sorted(json.dumps(i._snapshot(), sort_keys=True) for i in cls._made if i.log)
+
+            ba, bb = bag(clsA), bag(clsB)
+            ctx.probe("class_instances_compared")
+            if ba != bb:
+                only_a = [x for x in ba if x not in bb]
+                only_b = [x for x in bb if x not in ba]
+                ctx.violate("oneway-state-mismatch" if any_oneway else "state-mismatch", "class-instances",
+                            "%s-mode class: the instances that served the batches differ from the instances that served the same calls "
+                            "one by one: %d vs %d touched instances; only batched: %s; only one-by-one: %s"
+                            % (target, len(ba), len(bb), short(only_a[:2]), short(only_b[:2])))
 
     # ------------------------------------------------------------------
-    def _judge(self, ctx, plan, batches, outA, outB, model, stateA, stateB, remote):
-        for o in outA + outB:
-            if "thread_error" in o:
-                if o["thread_error"]["comm"]:
-                    ctx.disturbed = "communication error outside a call: %s" % o["thread_error"]["text"]
-                    return
-                raise S.HarnessError("client scaffolding failed: %r" % (o["thread_error"],))
+    def _judge_unit(self, ctx, u):
+        """results / failures of one unit; returns None if the run is disturbed, else whether the reference failed somewhere"""
+        batches, outA, outB = u["batches"], u["outA"], u["outB"]
         if len(outA) != len(batches) or len(outB) != len(batches):
-            raise S.HarnessError("incomplete outcome lists %d/%d of %d" % (len(outA), len(outB), len(batches)))
+            raise S.HarnessError("%s: incomplete outcome lists %d/%d of %d" % (u["tag"], len(outA), len(outB), len(batches)))
         # ---- the reference must itself be sane: B's prefix replayed on a local, never-remoted instance
+        model = Acc()
         for (calls, mode), rb in zip(batches, outB):
             fail = rb["fail"]
             if fail is not None and fail["comm"]:
                 ctx.disturbed = "reference call failed with a communication error: %s" % fail["text"]
-                return
+                return None
             for i, c in enumerate(calls):
                 if c["m"] in NAME_FAILS:
                     local = ("exc", "AttributeError", None)
@@ -466,22 +680,21 @@ class BatchWorld(World):
                         local = ("exc", type(x).__name__, list(x.args))
                 if local[0] == "ok":
                     if i >= len(rb["results"]) or not same(rb["results"][i], local[1]):
-                        ctx.disturbed = "sequential reference diverged from local execution at call %d (%s)" % (i, c["m"])
-                        return
+                        ctx.disturbed = "%s: sequential reference diverged from local execution at call %d (%s)" % (u["tag"], i, c["m"])
+                        return None
                 else:
                     if fail is None or fail["pos"] != i or fail["cls"] != local[1] or \
                             (local[2] is not None and not same(fail["args"], local[2])):
-                        ctx.disturbed = "sequential reference diverged from local execution at failing call %d (%s): %r" % (i, c["m"], fail)
-                        return
+                        ctx.disturbed = "%s: sequential reference diverged from local execution at failing call %d (%s): %r" \
+                                        % (u["tag"], i, c["m"], fail)
+                        return None
                     break
-        if not same(stateB, model._snapshot()):
-            ctx.disturbed = "state of the sequential reference diverged from local execution"
-            return
+        u["model"] = model
 
         any_fail = False
         for bi, ((calls, mode), ra, rb) in enumerate(zip(batches, outA, outB)):
             n = len(calls)
-            tag = "batch %d (%s, %d calls)" % (bi + 1, mode, n)
+            tag = "%s batch %d (%s, %d calls)" % (u["tag"], bi + 1, mode, n)
             fail = rb["fail"]
             k = fail["pos"] if fail else None
             name_fail = bool(fail) and fail["m"] in NAME_FAILS
@@ -511,7 +724,7 @@ class BatchWorld(World):
                     ctx.violate("batch-unexpected-exception", "oneway-submission",
                                 "%s: submitting the one-way batch raised %s%r" % (tag, ra["submit_exc"]["cls"], ra["submit_exc"]["args"]))
                 elif not ra["ret_none"]:
-                    ctx.violate("oneway-batch-returned-value", "", "%s returned %s" % (tag, ra.get("ret")))
+                    ctx.violate("oneway-batch-returned-value", "", "%s returned a %s" % (tag, ra.get("ret")))
                 continue
             # ---- normal batch
             sub, itx, res = ra["submit_exc"], ra["iter_exc"], ra["results"]
@@ -559,7 +772,37 @@ class BatchWorld(World):
                 ctx.violate("failure-mismatch", where, "%s: call %d (%s) fails sequentially with %s; the batch raised %s%r at %s"
                             % (tag, k, fail["m"], want, got["cls"], got["args"], where))
 
-        # ---- effects
+        # ---- session-mode class: the state of this connection's instance, read on the same connections
+        if u["kind"] == "session":
+            ga, gb = u["getA"], u["getB"]
+            if gb is None or gb[0] != "ok":
+                if gb is not None and gb[1]["comm"]:
+                    ctx.disturbed = "reading the reference state failed: %s" % gb[1]["text"]
+                    return None
+                raise S.HarnessError("%s: reading the reference state failed: %r" % (u["tag"], gb))
+            if not same(gb[1], model.get()):
+                ctx.disturbed = "%s: state of the sequential reference diverged from local execution" % u["tag"]
+                return None
+            oneway = any(m == "oneway" for _, m in batches)
+            if ga is None or ga[0] != "ok":
+                ctx.violate("oneway-state-mismatch" if oneway else "state-mismatch", "session-view",
+                            "%s: get() on the batched connection failed: %r" % (u["tag"], ga))
+            else:
+                ctx.probe("session_state_compared")
+                if not same(ga[1], gb[1]):
+                    ctx.violate("oneway-state-mismatch" if oneway else "state-mismatch", "session-view",
+                                "%s: the session instance behind the batched connection is %s, the one behind the one-by-one connection %s"
+                                % (u["tag"], short(ga[1]), short(gb[1])))
+        return any_fail
+
+    # ------------------------------------------------------------------
+    def _judge_instances(self, ctx, u, direct, remote):
+        stateA, stateB = direct
+        batches = u["batches"]
+        if not same(stateB, u["model"]._snapshot()):
+            ctx.disturbed = "state of the sequential reference diverged from local execution"
+            return
+        any_fail = any(rb["fail"] for rb in u["outB"])
         oneway = any(m == "oneway" for _, m in batches)
         la, lb = stateA["log"], stateB["log"]
         if not same(stateA, stateB):
